@@ -149,29 +149,21 @@ export function optionToArgsForCalling(jsValue, size, align, writeToArrayBufferC
 }
 
 export function optionToBufferForCalling(wasm, jsValue, size, align, allocator, writeToArrayBufferCallback) {
-    let buf = DiplomatBuf.struct(wasm, size, align);
+    // The payload, then the is_ok byte directly after it, padded to the payload's alignment:
+    const totalSize = Math.ceil((size + 1) / align) * align;
+    let buf = DiplomatBuf.struct(wasm, totalSize, align);
 
-    
-    let buffer;
-    // Add 1 to the size since we're also accounting for the 0 or 1 is_ok field:
-    if (align == 8) {
-        buffer = new BigUint64Array(wasm.memory.buffer, buf, size / align + 1);
-    } else if (align == 4) {
-        buffer = new Uint32Array(wasm.memory.buffer, buf, size / align + 1);
-    } else if (align == 2) {
-        buffer = new Uint16Array(wasm.memory.buffer, buf, size / align + 1);
-    } else {
-        buffer = new Uint8Array(wasm.memory.buffer, buf, size / align + 1);
-    }
-
+    let buffer = new Uint8Array(wasm.memory.buffer, buf.ptr, totalSize);
     buffer.fill(0);
-    
+
     if (jsValue != null) {
-        writeToArrayBufferCallback(buffer.buffer, 0, jsValue);
-        buffer[buffer.length - 1] = 1;
+        writeToArrayBufferCallback(wasm.memory.buffer, buf.ptr, jsValue);
+        // (writing may have grown the memory and detached our view)
+        new Uint8Array(wasm.memory.buffer, buf.ptr, totalSize)[size] = 1;
     }
-    
+
     allocator.alloc(buf);
+    return buf.ptr;
 }
 
 
